@@ -305,11 +305,7 @@ def run_case(env, case):
     try:
         status = app.run(ArgvArgs(list(argv)), StringInputStream(""), out, err)
     except BaseException as e:  # noqa - nothing at all may escape run() here
-        mode = ""
-        if part == "exc":
-            from clikit.api.exceptions import CliKitException
-            mode = ":simple" if isinstance(expect[1], CliKitException) else ":full"
-        return report.viol("crash:" + report.exc_site(e) + mode, "%s escaped ConsoleApplication.run: %s" % (type(e).__name__, e), case,
+        return report.viol("crash:" + _trace.crash_site(e), "%s escaped ConsoleApplication.run: %s" % (type(e).__name__, e), case,
                            "run returns an int status", {"exception": repr(e), "stdout": out.fetch()[-300:], "stderr": err.fetch()[-300:]})
     o, e_ = out.fetch(), err.fetch()
     handler_calls = [c for c in log if c[0] != "listener"]
